@@ -406,7 +406,10 @@ class HelperFlow:
             ri, rf = self.vslot(ev["r"], "matvec")
             xi, xf = self.vslot(ev["x"], "matvec")
             if ri == xi and (rf, xf) == ("tmp", "cor"):
-                put(ri, get(ri)._replace(tmp="AU"))
+                rr = get(ri)
+                self.chk("E7.filter-cor", e, rr.cor != "PU", "A*cor for the adaptive step length is computed from a correction that is %s" % (
+                    "filtered" if rr.cor != "PU" else "prolongated but not yet filter_cor-ed (the step length and the defect update then belong to a different correction than the one added to the solution)"))
+                put(ri, rr._replace(tmp="AU"))
             else:
                 raise Incomplete("%s: 2-operand matrix apply (%s,%s)" % (v.name, rf, xf))
         elif kind == "filter_def":
@@ -426,7 +429,8 @@ class HelperFlow:
                 return [s]
             r = get(i)
             if f == "cor":
-                put(i, r._replace(cor="PF" if r.cor == "PU" else r.cor))
+                # filtering changes the correction: a product A*cor computed before no longer belongs to it
+                put(i, r._replace(cor="PF" if r.cor == "PU" else r.cor, tmp="N" if r.cor == "PU" else r.tmp))
             elif f == "sol":
                 put(i, r._replace(sol="C" if r.sol == "X" else r.sol))
         elif kind == "format":
@@ -509,6 +513,15 @@ class HelperFlow:
                 i, f = self.vslot(o, "dot")
                 if f == "def":
                     need_def(i, "adaptive step length")
+                    break
+            for o in (ev["a"], ev["b"]):
+                i, f = self.vslot(o, "dot")
+                if f == "cor":
+                    self.chk("E7.filter-cor", e, get(i).cor != "PU", "adaptive step length: inner product with a correction that is %s" % (
+                        "filtered" if get(i).cor != "PU" else "prolongated but not yet filter_cor-ed"))
+                    break
+                if f == "tmp":
+                    self.chk("E7.filter-def", e, get(i).tmp != "AU", "adaptive step length: A*cor is %s" % ("filtered" if get(i).tmp != "AU" else "not filter_def-ed"))
                     break
         elif kind == "helper":
             h = ev["helper"]
